@@ -94,7 +94,9 @@ class Recorder:
         if self.poison:
             raise Poisoned("numpy.random.uniform called")
         res = self.nprng.uniform(low, high, size)
-        if size == 2:                       # a point in the plane: coarse grid so that equal distances occur
+        import sys as _sys
+        if size == 2 and _sys._getframe(1).f_code.co_name != "sample_cohesion_ballot_types":
+            # a point in the plane (spatial models): coarse grid so that equal distances occur
             res = _np.round(res * 4) / 4
         self.log.append({"kind": "np_uniform", "low": low, "high": high, "size": size,
                          "result": res.tolist() if hasattr(res, "tolist") else res})
